@@ -983,6 +983,146 @@ def check_ctor():
         raise TranslateError("constructor initialiser of _nbunches not found")
 
 
+WBUF = {"_bp_padded": "Bbp", "_formfactor": "Bff", "_wakelosses": "Bwl", "_wakepotential_padded": "Bwp"}
+
+
+def uncast(n):
+    while True:
+        n = unwrap(n)
+        if n.get("kind") in ("CXXReinterpretCastExpr", "CXXConstCastExpr") and len(kids(n)) == 1:
+            n = kids(n)[0]
+            continue
+        return n
+
+
+def z_coq(e, names):
+    """normalised index expression as a Z term over the given variable names"""
+    e = ix_norm(e)
+
+    def go(t):
+        k = t[0]
+        if k == "c":
+            return str(t[1]) if t[1] >= 0 else "(%d)" % t[1]
+        if k in names:
+            return names[k]
+        if k in ("add", "sub", "mul", "div"):
+            return "(%s %s %s)" % (go(t[1]), {"add": "+", "sub": "-", "mul": "*", "div": "/"}[k], go(t[2]))
+        raise TranslateError("term %s in a buffer length" % k)
+    return go(e)
+
+
+def alloc_zeroed(fn):
+    """fft::fft_alloc_real / fft_alloc_complex (src/FFTWWrapper.cpp): how many real cells of the new array the
+    single std::fill_n zeroes, as a function of the parameter n"""
+    docs = ast_of("src/FFTWWrapper.cpp", fn)
+    body = None
+    for d in docs:
+        if d.get("kind") == "FunctionDecl" and d.get("name") == fn:
+            for c in d.get("inner", []):
+                if c.get("kind") == "CompoundStmt":
+                    body = c
+    if body is None:
+        raise TranslateError("fft::%s not found" % fn)
+    fills = []
+
+    def look(m):
+        if m.get("kind") == "CallExpr" and callee_name(m) in ("fill_n", "fill", "memset"):
+            fills.append(m)
+        for c in kids(m):
+            look(c)
+    look(body)
+    if len(fills) != 1 or callee_name(fills[0]) != "fill_n":
+        raise TranslateError("fft::%s does not zero its array with exactly one std::fill_n" % fn)
+    args = kids(fills[0])[1:]
+    if len(args) != 3 or not is_zero(args[2]):
+        raise TranslateError("fft::%s: fill_n is not a zero fill" % fn)
+    p = uncast(args[0])
+    if p.get("kind") != "DeclRefExpr" or nm(p) != "rv":
+        raise TranslateError("fft::%s: fill_n does not start at the new array" % fn)
+    # element type of the pointer handed to fill_n: complex elements count twice
+    w = args[0]
+    while w.get("kind") in ("ImplicitCastExpr", "ParenExpr") and len(kids(w)) == 1:
+        w = kids(w)[0]
+    qt = (w.get("type") or {}).get("qualType", "")
+    factor = 2 if ("complex" in qt or "[2]" in qt) else 1
+    cx = Ctx()
+    cx.env["n"] = ("ix", ("nmax",))
+    cnt = ix(args[1], cx)
+    if factor == 2:
+        cnt = ("mul", ("c", 2), cnt)
+    return z_coq(cnt, {"nmax": "n"})
+
+
+def setup_facts():
+    """constructor body and _initWakeLossFFT: which allocation each work buffer comes from and with what
+    length, and between which buffers the two plans are made"""
+    bodies = []
+    for d in ast_of(SRC, "ElectricField::ElectricField"):
+        if d.get("kind") == "CXXConstructorDecl":
+            for c in kids(d):
+                if c.get("kind") == "CompoundStmt" and kids(c):
+                    bodies.append(c)
+    for d in ast_of(SRC, "_initWakeLossFFT"):
+        if d.get("kind") == "CXXMethodDecl" and d.get("name") == "_initWakeLossFFT":
+            for c in kids(d):
+                if c.get("kind") == "CompoundStmt":
+                    bodies.append(c)
+    alloc, alias, plans = {}, {}, {}
+
+    def walk(st):
+        if st.get("kind") == "CompoundStmt":
+            for c in kids(st):
+                walk(c)
+            return
+        e = unwrap(st)
+        if e.get("kind") != "BinaryOperator" or e.get("opcode") != "=":
+            return
+        lhs, rhs = kids(e)
+        m = member_of_this(lhs)
+        if m is None:
+            return
+        r = uncast(rhs)
+        if r.get("kind") == "CallExpr":
+            f = callee_name(r)
+            args = kids(r)[1:]
+            if f in ("fft_alloc_real", "fft_alloc_complex") and len(args) == 1:
+                if m in alloc:
+                    raise TranslateError("%s allocated twice" % m)
+                alloc[m] = (f == "fft_alloc_complex", ix(args[0], Ctx()))
+            elif f == "prepareFFT" and len(args) == 3:
+                a, b = member_of_this(uncast(args[1])), member_of_this(uncast(args[2]))
+                if m in plans:
+                    raise TranslateError("plan %s made twice" % m)
+                plans[m] = (ix(args[0], Ctx()), a, b)
+        else:
+            src = member_of_this(r)
+            if src is not None:
+                alias[m] = src
+    for b in bodies:
+        walk(b)
+    bufs = []
+    for mem, tag in WBUF.items():
+        root = mem
+        seen = set()
+        while root in alias and root not in alloc:
+            if root in seen:
+                raise TranslateError("alias cycle at %s" % root)
+            seen.add(root)
+            root = alias[root]
+        if root not in alloc:
+            raise TranslateError("allocation of %s not found" % mem)
+        bufs.append((tag, alloc[root][0], alloc[root][1]))
+    res = {}
+    for pm, key in (("_fft_bunchprofile", "fwd"), ("_fft_wakelosses", "inv")):
+        if pm not in plans:
+            raise TranslateError("plan %s not found" % pm)
+        ln, a, b = plans[pm]
+        if a not in WBUF or b not in WBUF:
+            raise TranslateError("plan %s is not between two work buffers" % pm)
+        res[key] = (ln, WBUF[a], WBUF[b])
+    return bufs, res
+
+
 def translate():
     check_ctor()
     kern = Kernels()
@@ -1026,6 +1166,16 @@ def translate():
             "  (* _csrintensity[n] += ... : a = the old value, delta = _axis_freq.delta(), spec = the cell of _csrspectrum *)",
             "  Definition gen_k_acc (a delta spec : K) : K := (a + %s)." % v_coq(kern.k["acc"]),
             "End Kernels."]
+    zr, zc = alloc_zeroed("fft_alloc_real"), alloc_zeroed("fft_alloc_complex")
+    bufs, plans = setup_facts()
+    out += ["", "(* set-up (constructor, _initWakeLossFFT, src/FFTWWrapper.cpp): real cells zeroed by fft_alloc_real(n) / fft_alloc_complex(n);",
+            "   the work buffers (complex?, allocated length); the two plans (length, input, output) *)",
+            "Definition gen_alloc_real_zeroed (n : Z) : Z := %s." % zr,
+            "Definition gen_alloc_complex_zeroed (n : Z) : Z := %s." % zc,
+            "Definition gen_buffers (nmax : Z) : list (wbuf * bool * Z) :=",
+            "  [ %s ]." % "; ".join("(%s, %s, %s)" % (t, "true" if c else "false", z_coq(l, {"nmax": "nmax"})) for t, c, l in bufs),
+            "Definition gen_plan_fwd (nmax : Z) : Z * wbuf * wbuf := (%s, %s, %s)." % (z_coq(plans["fwd"][0], {"nmax": "nmax"}), plans["fwd"][1], plans["fwd"][2]),
+            "Definition gen_plan_inv (nmax : Z) : Z * wbuf * wbuf := (%s, %s, %s)." % (z_coq(plans["inv"][0], {"nmax": "nmax"}), plans["inv"][1], plans["inv"][2])]
     return "\n".join(out) + "\n"
 
 
